@@ -51,8 +51,12 @@ def driver(L):
     return None
 
 
+_FX = [None]
+
+
 def iter_term(slf):
-    return ("adt", "ProguardRecordIter", "ProguardRecordIter", (("slice", mk_field(slf, "source")),))
+    fx_ = _FX[0]
+    return ("adt", "ProguardRecordIter", "ProguardRecordIter", (((A.record_iter_field(fx_) if fx_ else "slice"), mk_field(slf, A.mapping_field(fx_) if fx_ else "source")),))
 
 
 def pname(pl):
@@ -214,6 +218,7 @@ def chained_any_form(fx, rep, p, slf):
 
 def run(ctx, rep):
     fx = ctx.facts("")
+    _FX[0] = fx
     rep.configs.append("default")
     slf = ("in", "self")
     # ---- has_line_info
